@@ -269,6 +269,9 @@ pub struct World {
     pub zero_tf_ok: bool,
     /// bank accepts any non-empty recipient string (a real bank refuses foreign prefixes and bad checksums)
     pub lenient_bank: bool,
+    /// block times carry a sub-second part (real block times do; every deadline of the contracts is in whole
+    /// seconds, so nothing may depend on it)
+    pub sub_second: bool,
 }
 
 #[derive(Clone, Debug)]
@@ -342,6 +345,7 @@ impl World {
             zero_ibc_ok: false,
             zero_tf_ok: false,
             lenient_bank: false,
+            sub_second: false,
         }
     }
 
@@ -356,8 +360,14 @@ impl World {
         // block time is nanoseconds in a u64: the simulated clock never passes the year 2286
         let horizon: u64 = 10_000_000_000;
         let secs = secs.min(horizon.saturating_sub(self.now_s())).max(1);
-        self.st.now_ns += secs * 1_000_000_000;
         self.st.height += 1 + secs / 6;
+        if self.sub_second {
+            // whole seconds advance exactly by `secs`; the fraction is a fixed function of the height
+            let frac = (self.st.height.wrapping_mul(618_033_989)) % 1_000_000_000;
+            self.st.now_ns = (self.now_s() + secs) * 1_000_000_000 + if frac % 7 == 0 { 999_999_999 } else { frac };
+        } else {
+            self.st.now_ns += secs * 1_000_000_000;
+        }
         self.st.tx_index = 0;
     }
 
